@@ -10,7 +10,7 @@ CLAIMED = {k: (v["category"], v["text"], v["design_ref"], v["level_note"], v["te
 
 NOT_YET = "check not built yet in this round (static-analysis design exists in DESIGN.md); not claimed until it is"
 NOT_APPLICABLE = {
- "C05": "exactly-once over a lossy link is a property of the product client x network x gateway; two of the three are not in the source and no per-function shape implies it (model-checking territory). Its per-function necessary conditions are claimed under C03 and C04.",
+
 }
 
 def main():
